@@ -181,4 +181,32 @@ def itemsOKb (ends : List (Nat × Nat × Val)) : Nat → List Item → Bytes →
      | none => false) &&
     itemsOKb ends (pos + text.length) r after
 
+/-! ### The end of a file: `startxref`, offset, `%%EOF` -/
+
+/-- `%%EOF` -/
+def kwEOF : Bytes := [37, 37, 69, 79, 70]
+
+def eolRep (eol : LineEol) : Nat → Bytes
+  | 0 => []
+  | k + 1 => eol.bytes ++ eolRep eol k
+
+def blanks (k : Nat) : Bytes := List.replicate k 32
+
+/-- `startxref` + `s1` blanks + `k1+1` EOLs + the offset in `w` digits + `s2` blanks + `k2+1` EOLs +
+`%%EOF` + `s3` blanks + `k3` EOLs. -/
+def renderTailG (eol : LineEol) (s1 s2 s3 k1 k2 k3 w n : Nat) : Bytes :=
+  kwStartxref ++ (blanks s1 ++ (eolRep eol (k1 + 1) ++ (renderDec w n ++ (blanks s2 ++
+    (eolRep eol (k2 + 1) ++ (kwEOF ++ (blanks s3 ++ eolRep eol k3)))))))
+
+/-- The four tails the harness writer produces. -/
+inductive TailStyle | plain | noeol | blank | spaces
+  deriving Repr
+
+def renderTail (ts : TailStyle) (eol : LineEol) (w n : Nat) : Bytes :=
+  match ts with
+  | .plain => renderTailG eol 0 0 0 0 0 1 w n
+  | .noeol => renderTailG eol 0 0 0 0 0 0 w n
+  | .blank => renderTailG eol 0 1 0 0 1 2 w n
+  | .spaces => renderTailG eol 1 2 1 0 0 1 w n
+
 end PdfVerif.Xref
